@@ -19,6 +19,19 @@ def suffix_spec(pa, pp):
         return None
     return A[len(P):]
 
+def recon(pa, pp, s, want):
+    """the reconstruction law: prefix segments followed by the suffix's segments normalise to the value's segments (decoded).
+    Returns (holds, in_known_class); the class is the exact complement of the hypotheses of C16_reconstruction_partial."""
+    rec = norm(is_abs(pp), segs(pp) + segs(s))
+    holds = [dec(x) for x in rec] == [dec(x) for x in nsegs(pa)]
+    P = nsegs(pp)
+    plain_rest = all(x not in (b'.', b'..') for x in want)
+    all_dd = all(x == b'..' for x in P)
+    return holds, not (plain_rest or all_dd)
+
+CORPUS = [('../../x', '%2E%2E'), ('../..', '%2E%2E'), ('../../..', '../%2e%2E'), ('../../x', '..'), ('../x', '%2E%2E'), ('/%2E%2E/x', '/%2E%2E'),
+          ('../../../a/b', '%2e./..'), ('a/b/c', 'a'), ('/a/b/', '/a')]
+
 def main():
     R = Result('C16', 'proof')
     rnd = random.Random(R.seed)
@@ -32,17 +45,26 @@ def main():
     lines = []; meta = []
     SEG = ['a', 'b', 'c', '%61', 'x:y', '', '.', '..', 'é', '%FF', '%C3%A9']
     n = 100000 if thorough else 4000
+    known_listed = {k['id']: k for k in known_findings('C16')}
+    for fam in ('uri', 'iri'):
+        for pa, pp in CORPUS:          # the minimised cases run first
+            lines.append('psuffix\t%s\t%s\t%s' % (fam, hexs(pa), hexs(pp))); meta.append(('psuffix', fam, pa.encode(), pp.encode()))
+            ra = 's:' + pa + '?q#f'; rp = 's:' + pp
+            lines.append('suffix\t%s\t%s\t%s' % (fam, hexs(ra), hexs(rp))); meta.append(('suffix', fam, ra.encode(), rp.encode()))
     for fam in ('uri', 'iri'):
         g = Gen(random.Random(rnd.random()), fam)
         S = [s for s in SEG if fam == 'iri' or all(ord(c) < 128 for c in s)]
         for i in range(n // 2):
             ab = g.r.random() < 0.7
             segl = [g.pick(S) for _ in range(g.pick([0, 1, 2, 3, 4, 5]))]
+            updown = (not ab) and g.r.random() < 0.25
+            if updown: segl = ['..'] * g.pick([1, 2, 3]) + [x for x in segl if x not in ('.', '..', '')]
             k = g.r.random()
             if k < 0.6:
                 pre = segl[:g.r.randint(0, len(segl))]          # a leading part
                 if g.r.random() < 0.3: pre = [x.replace('a', '%61') if x == 'a' else ('a' if x == '%61' else x) for x in pre]
                 if g.r.random() < 0.2: pre = pre + ['x', '..']
+                if updown and g.r.random() < 0.5: pre = [g.pick(['%2E%2E', '%2e.', '.%2E', '..']) if x == '..' else x for x in pre]
             elif k < 0.8:
                 pre = segl + [g.pick(S)]                              # longer than the value
             else:
@@ -67,7 +89,7 @@ def main():
             lines.append('base\t%s\t%s' % (fam, hexs(ra))); meta.append(('base', fam, ra.encode(), None))
     impl = run_lines(harness, lines)
     mod = run_lines(model, lines)
-    nviol = 0; diffs = 0; classes = set()
+    nviol = 0; diffs = 0; classes = set(); known_seen = {}; recon_ok = 0
     for (op, fam, a, p), line, io, mo in zip(meta, lines, impl, mod):
         if io.startswith('ERR'):
             continue
@@ -85,6 +107,12 @@ def main():
                     if f[1] != '1': pr.append('suffix %r is not a valid path' % s)
                     if nodot(segs(s)) != nodot(want): pr.append('suffix %r has segments %r, the remaining segments are %r' % (s, segs(s), want))
                     if is_abs(s): pr.append('suffix %r is absolute' % s)
+                    holds, kn = recon(a, p, s, want)
+                    if not holds:
+                        if kn and 'K_pct_dotdot' in known_listed:
+                            R.known_finding(known_listed['K_pct_dotdot']['what']); known_seen['K_pct_dotdot'] = known_seen.get('K_pct_dotdot', 0) + 1
+                        else: pr.append('reconstruction law: prefix %r followed by suffix %r normalises to %r, the value to %r' % (p, s, norm(is_abs(p), segs(p) + segs(s)), nsegs(a)))
+                    else: recon_ok += 1
             classes.add((op, fam, is_abs(a), want is None, len(want or []), any(b'%' in x for x in segs(a))))
         elif op == 'suffix':
             A = spec.parse(a); P = spec.parse(p)
@@ -101,6 +129,12 @@ def main():
                 else:
                     if nodot(segs(s)) != nodot(want): pr.append('suffix path %r, remaining segments are %r' % (s, want))
                     if (g_(f[2]), g_(f[3])) != (A[3], A[4]): pr.append('suffix does not carry the value\'s own query and fragment')
+                    holds, kn = recon(A[2], P[2], s, want)
+                    if not holds:
+                        if kn and 'K_pct_dotdot' in known_listed:
+                            R.known_finding(known_listed['K_pct_dotdot']['what']); known_seen['K_pct_dotdot'] = known_seen.get('K_pct_dotdot', 0) + 1
+                        else: pr.append('reconstruction law: prefix path %r followed by suffix %r does not normalise to the value\'s segments %r' % (P[2], s, nsegs(A[2])))
+                    else: recon_ok += 1
             if len(halves) > 1 and halves[1] != '-' and halves[1] != first:
                 pr.append('Uri/Iri::suffix and UriRef/IriRef::suffix disagree')
             classes.add((op, fam, A[0] is None, A[1] is None, P[1] is None, same, want is None))
@@ -139,11 +173,11 @@ def main():
     R.cov['evaluations'] = len(lines)
     R.cov['distinct_nontrivial'] = len(classes)
     R.cov['rule'] = ('(value, prefix) pairs of paths and references: prefixes derived from the value by truncating its segment list (re-encoded %61/a, with x/.. detours), longer or '
-                     'unrelated prefixes, differing absoluteness, scheme, authority (incl. percent-equal authorities); base() on every generated reference; distinct_nontrivial = distinct '
+                     'unrelated prefixes, relative values with leading .. against percent-respelled .. prefixes (reconstruction law), differing absoluteness, scheme, authority (incl. percent-equal authorities); base() on every generated reference; distinct_nontrivial = distinct '
                      '(op, family, shape flags, suffix exists?, length)')
     R.cov['samples'] = [{'case': l.replace('\t', ' ')[:160], 'impl': io.replace('\t', ' ')[:160]} for l, io in list(zip(lines, impl))[::max(1, len(lines) // 6)]][:6]
     R.cov['trusted_base'] = R.assumptions
-    R.extra.update({'model_vs_impl_differences': diffs, 'tree': os.path.basename(cdir)})
+    R.extra.update({'model_vs_impl_differences': diffs, 'known_classes_seen': known_seen, 'reconstruction_law_held': recon_ok, 'tree': os.path.basename(cdir)})
     return R.finish()
 
 if __name__ == '__main__':
